@@ -31,6 +31,9 @@ CHECKS = {
  "C11": ("engine-b", "model_checking", B,
          "for every design (F_hier incl. shared definitions at one/two depths, wire-only cells, bus bundles, unnamed items) the five get_h* functions and get_all_hrefs_of_item are run from every root kind with recursive on/off and compared with an independent enumeration of occurrences (no omission, no duplicate, valid, correct name, same object for the same path); then every single breaking edit is applied and every previously obtained reference is re-judged (is_valid, is_unique) against a fresh elaboration",
          "bounded as C08; root semantics taken from the docstrings; is_unique judged for instance references only"),
+ "C05": ("engine-b", "model_checking", B,
+         "EDIF texts rendered by an independent writer (vlib/edif_writer.py) from abstract designs - base designs x rendering options (reference letter case, rename style, libraryRef present/omitted, comments, design reference case) x every permutation and every non-empty subset of the bits of each bus net, plus F_hier designs - and the bundled .edf examples (vs an independent s-expression reading) are parsed by the real reader; canonical structure incl. identifiers, original names, property types, member indices, bus merging and the top design must equal the abstract design; well-formedness",
+         "bounded: 3 base designs, bus width 3, F_hier K1/K8 (quick) + K2/K5 (thorough), bundled files under a byte cap; trusted: the independent writer and s-expression reader; port base index is not compared (not in the statement)"),
 }
 m = {
  "version": 1,
